@@ -47,7 +47,8 @@ class Ctx:
 
     __slots__ = (
         "active", "n", "fault_at", "fault_exc", "fault_site", "evict_at", "evict_fn", "evicted_site",
-        "yield_at", "on_yield", "trace_ws", "ws_ordinals", "pending", "cap", "last_site", "ws_hits",
+        "yield_at", "on_yield", "trace_ws", "ws_ordinals", "pending", "cap", "last_site", "ws_hits", "ws_events",
+        "force_at",
     )
 
     def __init__(self) -> None:
@@ -67,6 +68,8 @@ class Ctx:
         self.cap = 2_000_000
         self.last_site = None
         self.ws_hits = 0
+        self.ws_events = None
+        self.force_at = -1
 
     def begin(self) -> None:
         self.n = 0
@@ -76,6 +79,7 @@ class Ctx:
         self.last_site = None
         if self.trace_ws:
             self.ws_ordinals = []
+            self.ws_events = []
         self.active = True
 
     def end(self) -> int:
@@ -83,6 +87,7 @@ class Ctx:
         self.fault_at = -1
         self.evict_at = -1
         self.yield_at = -1
+        self.force_at = -1
         return self.n
 
 
@@ -129,9 +134,12 @@ def _callback(code: types.CodeType, line: int):
                 if g is None:  # the frame of the write-site has returned
                     ctx.ws_ordinals.append(n)
                     ctx.pending = None
-        if key in WRITE_SITES and ctx.pending is None:
-            ctx.ws_hits += 1
-            ctx.pending = (sys._getframe(1), line)
+        if key in WRITE_SITES:
+            if len(ctx.ws_events) < 256:
+                ctx.ws_events.append((n, key))
+            if ctx.pending is None:
+                ctx.ws_hits += 1
+                ctx.pending = (sys._getframe(1), line)
     if n == ctx.evict_at:
         ctx.evicted_site = key
         ctx.evict_fn()
@@ -139,7 +147,7 @@ def _callback(code: types.CodeType, line: int):
         ctx.fault_at = -1
         ctx.fault_site = key
         raise ctx.fault_exc
-    if n == ctx.yield_at:
+    if n == ctx.yield_at or n == ctx.force_at:
         ctx.on_yield(ctx, key)
     if n > ctx.cap:
         ctx.active = False
